@@ -26,6 +26,10 @@ CHECKS = {
    text="generated policies (blocklists, allowlists, domain patterns) x covert strings from a grammar of textual address forms x scripted resolver answers that change between lookups; every registration goes through the real ingest pipeline and is followed by a genuine connection through the real station; an independent net/netip evaluator judges each string that reaches the dial seam (literal, non-empty host, permitted, not a blocked domain, resolved exactly once at admission, dialled = checked, permitted well-formed literal accepted unchanged)",
    note="trusted: the independent evaluator; literals and the empty host are resolved by the real net.ResolveIPAddr (no DNS), names by the scripted resolver; the textual address space is sampled, not enumerated; policy as of admission time",
    tech=TECH + " (scripted faulty resolver as third party, admission->dial history through the real station, independent oracle at the dial seam)"),
+ "C07": dict(cat="exploration", ref="5 C07",
+   text="the admission decision table is driven through the real ingest pipeline: transport x source x each of 20 ways to break exactly one admission condition is enumerated as a single message, combinations / duplicates / share-over-API settings are sampled; an executable admission model written from the property text decides per family; observables: GetRegistrations(phantom), New announcements, liveness probe calls, peer-API posts (count, prescanned marking, only after liveness)",
+   note="trusted: the admission model (from the property text), recorder stubs for liveness / peer API / detector; messages whose completeness the property leaves open are not generated; repeats of rejected messages are don't-cares",
+   tech=TECH + " (decision table through the simulated environment: liveness verdicts, peer delivery, duplicates; executable model as oracle)"),
  "C08": dict(cat="exploration", ref="5 C08",
    text="all histories up to length 5 (thorough 6) over a 10-operation alphabet are enumerated and long random histories sampled against the real registry under the simulated clock, compared after every step with an expiry reference model",
    note="trusted: synctest fake clock; the reference model (30 lines) written from the property text; ages within 1 ms of a threshold are don't-cares",
